@@ -18,7 +18,9 @@
           outcomes = execute_handlers_once(...)                       # invokes the function iff the state is awakened
           state = state.with_outcomes(outcomes)                       # retries+1, flags, delayed := now + outcome.delay
           if state.done and state.counts.failure: memory.forever_stopped.add(handler.id)   # never spawned again in this process
-          _, remaining = patch_and_check(patch)                       # API round trip(s) iff patch ≠ {}
+          try: _, remaining = patch_and_check(patch)                  # API round trip(s) iff patch ≠ {}
+          except Exception: remaining = patch                         # (b8b3089) an API error beyond the request's own retries: the
+                                                                      # undelivered patch is carried, the loop goes on (`onPatchError`)
           if not state.done:              sleep(state.delays)         # max(0, delayed - now)
           elif interval and sharp:        sleep(interval - (clock() - started) % interval)
           elif interval:                  sleep(interval)
@@ -294,12 +296,15 @@ def stateAt (cfg : Cfg) (spawn : Int) (its : List Iter) (n : Nat) : HState :=
 One `Ev` per `process_resource_event` of the object (`_detect_causes` → `process_spawning_cause`), in
 processing order, for ONE per-object memory (one operator process; it is created by the first event):
 
-    seen = memory.last_seen_essence;  seen = new if seen is None else seen;  memory.last_seen_essence = new
-    reset = bool(diff(old, new)) or bool(diff(seen, new))
+    seen = memory.last_seen_essence
+    essentially_changed = bool(diff(old, new)) if seen is None else bool(diff(seen, new))      # since 14876bf
+    memory.last_seen_essence = new;   reset = essentially_changed
 
 where `old` is the essence stored on the object as LAST HANDLED (`none`: nothing stored, e.g. no change
 handlers at all), `new` the essence of the event's body and `seen` the essence of the previously
-processed event. Essences are abstracted to `Nat`. -/
+processed event (`none`: the first event of the memory). Essences are abstracted to `Nat`.
+Before 14876bf: `seen = new if seen is None else seen; reset = bool(diff(old, new)) or bool(diff(seen, new))`
+(`resetCondLastHandled`, kept as a variant for the regression theorems of the fixed finding C10-F3). -/
 structure Ev where
   recv : Int := 0               -- loop time right after `_detect_causes` in `process_resource_causes`, before any handler
                                 -- of the cycle runs: the FIRST instant a reset is stamped with (since f6dee42)
@@ -310,17 +315,28 @@ structure Ev where
   lastHandled : Option Nat      -- last-handled essence the body carries (`old`)
   deriving DecidableEq, Repr
 
-/-- The two facts the reset condition reads. -/
+/-- The facts the reset condition reads. -/
 structure ResetAtoms where
+  seenIsNone : Bool        -- `seen is None`: the first event of this memory (a new object, or the operator's restart)
   diffLastHandled : Bool   -- `bool(diff)`: the essence differs from the last-handled one (or none is stored)
-  diffSeen : Bool          -- `bool(diffs.diff(seen, new))`: it differs from the previously processed one
+  diffSeen : Bool          -- the essence differs from the previously processed one (`false` on the first event)
   deriving DecidableEq, Repr
 
-def resetCond (a : ResetAtoms) : Bool := a.diffLastHandled || a.diffSeen
+/-- `essentially_changed` of `_detect_causes` (since 14876bf) -/
+def resetCond (a : ResetAtoms) : Bool := if a.seenIsNone then a.diffLastHandled else a.diffSeen
 
-/-- the event writes `idle_reset_time`; `seen = none` on the first event of the memory (`seen := new`) -/
-def resetsIdle (lastHandled seen : Option Nat) (new : Nat) : Bool :=
-  resetCond { diffLastHandled := lastHandled != some new, diffSeen := seen.getD new != new }
+/-- the variant before 14876bf: the difference to the LAST-HANDLED essence counts on every event (finding C10-F3) -/
+def resetCondLastHandled (a : ResetAtoms) : Bool := a.diffLastHandled || a.diffSeen
+
+def resetAtoms (lastHandled seen : Option Nat) (new : Nat) : ResetAtoms :=
+  { seenIsNone := seen.isNone, diffLastHandled := lastHandled != some new, diffSeen := seen.getD new != new }
+
+/-- the event writes `idle_reset_time`; `seen = none` on the first event of the memory -/
+def resetsIdle (lastHandled seen : Option Nat) (new : Nat) : Bool := resetCond (resetAtoms lastHandled seen new)
+
+/-- … in the variant before 14876bf -/
+def resetsIdleLastHandled (lastHandled seen : Option Nat) (new : Nat) : Bool :=
+  resetCondLastHandled (resetAtoms lastHandled seen new)
 
 /-- the two places that write `idle_reset_time` under the reset condition -/
 inductive StampSite where
@@ -342,6 +358,14 @@ def viewStep (t : Int) (s : Int × Option Nat) (e : Ev) : Int × Option Nat :=
     resetting event processed so far (events of the same instant count as processed). -/
 def viewOf (created : Int) (evs : List Ev) (t : Int) : Int :=
   (evs.foldl (viewStep t) (created, none)).1
+
+/-- the same in the variant before 14876bf (regression theorems only) -/
+def viewStepLastHandled (t : Int) (s : Int × Option Nat) (e : Ev) : Int × Option Nat :=
+  let r := resetsIdleLastHandled e.lastHandled s.2 e.ess
+  (stamp r t e.t (stamp r t e.recv s.1), some e.ess)
+
+def viewOfLastHandled (created : Int) (evs : List Ev) (t : Int) : Int :=
+  (evs.foldl (viewStepLastHandled t) (created, none)).1
 
 /-- Times of the essential changes after an event with essence `prev`: the essence differs from the
     previously processed version. -/
@@ -370,6 +394,11 @@ def essentialEvs : List Ev → List Ev
     yet) instead of from the instant the cycle reaches `process_spawning_cause`. -/
 def FullIdleRecv (idle : Int) (evs : List Ev) (its : List Iter) : Prop :=
   ∀ it ∈ its, it.res.isSome = true → ∀ e ∈ essentialEvs evs, e.recv ≤ it.start → idle ≤ it.start - e.recv
+
+/-- both stamps of the events of a list -/
+def stampsOf : List Ev → List Int
+  | [] => []
+  | e :: es => e.recv :: e.t :: stampsOf es
 
 /-- The property's idle clause in full: no run starts within the idle time after an essential change. -/
 def FullIdle (idle : Int) (evs : List Ev) (its : List Iter) : Prop :=
@@ -524,34 +553,38 @@ inductive LoopId where
 
 def stopperGuards : List LoopId := [.main, .idleGate, .idlePoll]
 
-/-! ### What the property calls an essential change, event by event (finding C10-F3)
+/-! ### What the property calls an essential change, event by event (fixed finding C10-F3)
 
-`resetsIdle` (the code) also fires on events that are NOT essential changes: whenever the essence differs from
-what is stored as last handled — i.e. on every event while a change is not handled yet, and on every event at all
-when nothing is stored (operators without change-detecting handlers). `isEssential` is the event-level reading of
-`essentialTimes`: the essence differs from the previously processed one; on the first event of the memory, from
-the last-handled one (or nothing is stored). -/
+`isEssential` is the event-level reading of `essentialTimes`, written from the PROPERTY: the essence differs from the
+previously processed one; on the first event of the memory, from the last-handled one (or nothing is stored). Since
+14876bf `resetsIdle` (the code) is the same function (Props: `reset_iff_essential`); before, it also fired on events
+that are not essential changes: whenever the essence differed from what is stored as last handled — on every event
+while a change was not handled yet, and on every event at all when nothing is stored (operators without
+change-detecting handlers). -/
 def isEssential (lastHandled seen : Option Nat) (new : Nat) : Bool :=
   match seen with
   | none => lastHandled != some new
   | some s => s != new
 
-/-- every later event shows the same essence as `e0` and carries it as last handled: nothing changes, nothing is pending -/
-def Settled (e0 : Ev) (es : List Ev) : Prop := ∀ e ∈ es, e.ess = e0.ess ∧ e.lastHandled = some e0.ess
+/-- every later event shows the same essence as `e0`: the object does not change after `e0` (whatever is, or is not,
+    stored as last handled meanwhile) -/
+def Unchanged (e0 : Ev) (es : List Ev) : Prop := ∀ e ∈ es, e.ess = e0.ess
 
-/-! ### How a timer task ends (`daemons._runner` around `_timer`; finding C10-F4)
+/-! ### How a timer task ends (`daemons._runner` around `_timer`; fixed finding C10-F4)
 
-The loop of `_timer` is left by the stopper (a reason is recorded by whoever set it), by `break` (one-shot), or by
-an exception: the handler's own errors are outcomes of `execute_handlers_once`, so in the loop body only
-`application.patch_and_check` (the API client, after its own retries) can raise. `_runner`'s `finally`:
+The loop of `_timer` is left by the stopper (a reason is recorded by whoever set it) or by `break` (one-shot). The
+handler's own errors are outcomes of `execute_handlers_once`; the one statement of the loop body that can raise —
+`application.patch_and_check` (the API client, after its own retries) — is guarded since b8b3089 (`onPatchError`).
+`_runner`'s `finally` is unchanged:
 
     if stopper.reason is None: memory.forever_stopped.add(handler.id)
 
-and `spawn_daemons` is given `get_handlers(excluded=forever_stopped)`. -/
+and `spawn_daemons` is given `get_handlers(excluded=forever_stopped)`: an exception that did leave `_timer` would still
+end the timer for good (`Exit.raised`; the variant `OnPatchError.propagate` is the code before b8b3089). -/
 inductive Exit where
   | stopped     -- asked to stop (filters mismatch, deletion, pause, exit): a reason is recorded, however the task ends afterwards
   | returned    -- `break`: neither interval nor idle; nobody asked
-  | raised      -- an exception out of the post-run patch; nobody asked
+  | raised      -- an exception left `_timer` (before b8b3089: out of the post-run patch); nobody asked
   deriving DecidableEq, Repr
 
 /-- the fact `_runner`'s `finally` reads -/
@@ -572,5 +605,39 @@ def foreverAfter (already : Bool) (e : Exit) : Bool := already || runnerMarksFor
 
 /-- a later event of the object may spawn the timer again -/
 def respawnable (forever : Bool) : Bool := !forever
+
+/-- How the post-run `patch_and_check` of an iteration ended. -/
+inductive PatchEnd where
+  | delivered   -- returned: the merge-patch content is stored, `remaining` = what could not be applied (transformations)
+  | raised      -- an API error beyond the request's own retries (5xx, connection errors, time-outs, 403, 422, …)
+  deriving DecidableEq, Repr
+
+/-- What `_timer` does with an exception (not a cancellation) out of the post-run patch. -/
+inductive OnPatchError where
+  | propagate   -- before b8b3089: no handler; the exception ends the task (`Exit.raised`)
+  | keepPatch   -- `except Exception: remaining_patch = patch`: the undelivered patch is carried, the loop goes on
+  deriving DecidableEq, Repr
+
+/-- the code (translator-tied: `on_patch_error_eq`) -/
+def onPatchError : OnPatchError := .keepPatch
+
+/-- does the task end with the post-run patch of an iteration (`none`: the post-run branch chain is entered) -/
+def exitAfterPatch (pol : OnPatchError) : PatchEnd → Option Exit
+  | .delivered => none
+  | .raised => match pol with | .propagate => some .raised | .keepPatch => none
+
+/-- `cause.patch` of the next iteration before its run adds to it; patch content abstracted to a list of items:
+    `patch` = what was handed to `patch_and_check` (carried items + this run's result/progress), `remaining` = what a
+    successful delivery hands back -/
+def carriedPatch (pol : OnPatchError) (patch remaining : List Nat) : PatchEnd → List Nat
+  | .delivered => remaining
+  | .raised => match pol with | .propagate => [] | .keepPatch => patch
+
+/-- A run sequence under a policy: `raisedAt n` = the post-run patch of iteration `n` raised. Under `propagate` such an
+    iteration is the last of its task; under `keepPatch` nothing is added to `Sched` (the instant the patch gave up
+    is the iteration's `patched`, every post-run sleep is entered there). -/
+def SchedUnder (pol : OnPatchError) (cfg : Cfg) (view : View) (spawn : Int) (its : List Iter) (raisedAt : Nat → Bool) : Prop :=
+  Sched cfg view spawn its ∧
+    ∀ n, n + 1 < its.length → exitAfterPatch pol (if raisedAt n then .raised else .delivered) = none
 
 end Kopf.C10
